@@ -89,6 +89,7 @@ impl<'a> Scenario for ForkScenario<'a> {
         world.add_peer(1, 0, self.old.tip_number());
         world.filter_batch = self.filter_batch;
         world.slow_blocks = self.slow_blocks;
+        world.very_slow_blocks = self.slow_blocks;
         crate::verif::client::set_now(crate::verif::world::BASE_TS + 1_000_000);
         let mut sim = match old {
             Some(old) => Sim::recycle(old, self.cfg.clone(), world),
